@@ -171,10 +171,14 @@ def run(ctx):
     batchermodel.model_check(ctx)
     q = ctx.tier == 'quick'
 
+    executed = []
+
     def go(scs, fam):
         for off in range(0, len(scs), 6000):
-            ctx.run_and_validate(DRIVER, COMP, TRACE, scs[off:off + 6000], fam, nontrivial=nontrivial,
-                                 known_match=known_match)
+            out = ctx.run_and_validate(DRIVER, COMP, TRACE, scs[off:off + 6000], fam, nontrivial=nontrivial,
+                                       known_match=known_match)
+            if len(executed) < 3000:
+                executed.extend(out[:1500])
 
     if ctx.prop == 'C04':
         go(gen(rng, 3000 if q else 50000, 6 if q else 10), 'programs')
@@ -195,6 +199,8 @@ def run(ctx):
     else:
         go(c11_grid(ctx.tier), 'retention_grid')
         go(gen(rng, 1500 if q else 30000, 7 if q else 10, behaviours=False, keys=3), 'programs')
+    # implementation conformance: a sample of the recorded executions against the timed model itself
+    batchermodel.conformance(ctx, executed, limit=40 if q else 400)
     return ctx.finish(
         rule='timed programs of calls in virtual time: keys from a small domain (default str(arg) and explicit '
              'keys), arrival gaps on a grid straddling batch_timeout and retention_timeout, max_batch_size 1..5 '
